@@ -278,7 +278,7 @@ func c05Run(img memfs.Image, calls []string, failAt int, failMode string) *c05Tr
 		before := world.DumpCatalog(eng.Catalog(), world.DumpOpts{Raw: true, Oplog: true, IndexList: true})
 		acks, stores, inj := st.acks, st.stores, fs.Injected
 		// a commit that cannot get the writer slot would wait for a minute: bound the call generously instead
-		cctx, cancel := context.WithTimeout(bgCtx, 10*time.Second)
+		cctx, cancel := context.WithTimeout(bgCtx, 45*time.Second)
 		w.Ctx = cctx
 		err := all[cn].do(w)
 		cancel()
